@@ -69,6 +69,9 @@ type Case struct {
 	// a truncated archive member or a LimitedReader over a broken connection reports). SrcFail also applies to the stream
 	// a consumer reads from and to the streams behind the *csv.Reader and io.Reader sources of a producer. (r7)
 	SrcErr string `json:"src_err,omitempty"`
+	// OwnComma: the caller's own *csv.Reader source (produce) or *csv.Writer destination (consume) is configured with
+	// the separator ';' while the codec is given no separator option for that side: the object's own setting stands. (r8)
+	OwnComma bool `json:"own_comma,omitempty"`
 }
 
 var errSourceFailed = errors.New("scripted failure of the io.WriterTo source")
@@ -548,6 +551,11 @@ func (c Case) newStream(data string) *stream {
 func checkConsume(c Case, kind int) *kit.Violation {
 	in := string(c.Text)
 	o := c.Opts
+	codecOpts := o
+	ownComma := c.OwnComma && kind == kCSV && o.WComma == 0 && c.Mode == "consume"
+	if ownComma {
+		o.WComma = ';' // the caller's own *csv.Writer writes ';' and no separator option overrides it (r8)
+	}
 	m := parse(in, o)
 	want := drop(m.recs, o.Skip)
 	what := c.describe("consume", kind)
@@ -579,6 +587,9 @@ func checkConsume(c Case, kind int) *kit.Violation {
 	switch kind {
 	case kCSV:
 		csvw = csv.NewWriter(&snk.buf)
+		if ownComma {
+			csvw.Comma = ';'
+		}
 		dest, out = csvw, func() []byte { return snk.buf.Bytes() }
 	case kRecords:
 		dest, recs = rw, func() [][]string { return rw.recs }
@@ -647,7 +658,7 @@ func checkConsume(c Case, kind int) *kit.Violation {
 		}
 	}
 
-	consumer := scribbled(o.list(), runtime.CSVConsumer)
+	consumer := scribbled(codecOpts.list(), runtime.CSVConsumer)
 	if c.Used {
 		if v := kit.Guard("CSVConsumer.Consume (earlier call on the same consumer)", func() {
 			var earlier [][]string
@@ -742,6 +753,11 @@ func aliasing(what string, got [][]string) *kit.Violation {
 func checkProduce(c Case, kind int) ([]byte, *kit.Violation) {
 	in := string(c.Text)
 	o := c.Opts
+	codecOpts := o
+	ownComma := c.OwnComma && kind == kCSV && o.Comma == 0 && c.Mode == "produce"
+	if ownComma {
+		o.Comma = ';' // the caller's own *csv.Reader splits at ';' and no separator option overrides it (r8)
+	}
 	m := parse(in, o)
 	what := c.describe("produce", kind)
 
@@ -751,11 +767,16 @@ func checkProduce(c Case, kind int) ([]byte, *kit.Violation) {
 	var data interface{}
 	switch kind {
 	case kCSV:
+		var own *csv.Reader
 		if c.Rich {
-			data = csv.NewReader(c.newStream(in))
+			own = csv.NewReader(c.newStream(in))
 		} else {
-			data = csv.NewReader(strings.NewReader(in))
+			own = csv.NewReader(strings.NewReader(in))
 		}
+		if ownComma {
+			own.Comma = ';'
+		}
+		data = own
 	case kRecords:
 		data = &recReader{recs: deepCopy(m.recs), err: m.err}
 	case kStream:
@@ -822,7 +843,7 @@ func checkProduce(c Case, kind int) ([]byte, *kit.Violation) {
 		writer = onlyWriter{snk} // hides Close
 	}
 	var err error
-	producer := scribbled(o.list(), runtime.CSVProducer)
+	producer := scribbled(codecOpts.list(), runtime.CSVProducer)
 	if c.Used {
 		if v := kit.Guard("CSVProducer.Produce (earlier call on the same producer)", func() {
 			_ = producer.Produce(io.Discard, [][]string{{"w"}})
